@@ -17,8 +17,10 @@ ASSUMPTIONS = [
     "a VbkBlock waiting in flight may at the same time be the header of a relation once an ATV/VTB carrying it "
     "connects (getOrPutVbkRelation ignores the in-flight blocks; tryConnectPayloads handles VbkBlocks before the "
     "VTBs/ATVs that may carry their parents, so such a block needs a second pass): tolerated and counted "
-    "(`vbk-header-connected-while-in-flight`); the 'connected by the next pass' oracle only demands payloads whose "
-    "VBK context is reachable through VbkBlock payloads / the trees and whose BTC context is already present",
+    "(`vbk-header-connected-while-in-flight`); the 'connected by the next pass' oracle demands every in-flight payload "
+    "that passes the contextual check and whose carried block's parent is in the trees or is supplied by a payload "
+    "handled EARLIER in the same pass (VbkBlocks, then VTBs, then ATVs, each by ascending height of the carried "
+    "block), a VTB's BTC context being present before the pass",
     "memory safety is observed by ASan/UBSan (-O0 build of the library) on the generated histories, not proved",
 ]
 META = {
@@ -28,7 +30,9 @@ META = {
             "comparator; C13_vsm_v0_refuted - the pre-913f84f9 erase does not. Abstract pool with all tree verdicts as "
             "step inputs: C13_partition (connected XOR in flight, no assertion, under the caller contract), "
             "C13_views_agree, C13_removed_stay_removed, C13_never_lost, C13_inflight_eventually_connected (one "
-            "height-ordered pass leaves in flight only what fails the contextual check or lacks its context block), "
+            "height-ordered pass leaves in flight only what fails the contextual check or lacks its context block; the "
+            "sort key is a parameter and must be the height of the carried block, C13_inflight_other_key_refuted shows a "
+            "pass sorted by endorsed heights leaving a connectable payload in flight), "
             "C13_erase_while_iterating_safe / C13_cleanup_v0_uaf_refuted (iteration over a live container with an "
             "explicit Uaf outcome). Tie to the code: extracted Vsm model vs the real ValueSortedMap (two "
             "instantiations) on ALL op sequences up to length 4 (quick) / 5 (thorough) over 16 ops with three "
